@@ -99,16 +99,18 @@ struct Meta {
     aspect: bool,
     font: Option<usize>,
     width: i32,
+    /// the attached record disagrees with the buffer about ice colours (a record loaded earlier, then the mode was changed): what is saved describes the buffer
+    stale_record: bool,
 }
 
 impl Meta {
     fn base() -> Meta {
-        Meta { title: b"Title".to_vec(), author: b"Author".to_vec(), group: b"Group".to_vec(), comments: vec![], ice: false, spacing: false, aspect: false, font: None, width: 80 }
+        Meta { title: b"Title".to_vec(), author: b"Author".to_vec(), group: b"Group".to_vec(), comments: vec![], ice: false, spacing: false, aspect: false, font: None, width: 80, stale_record: false }
     }
     fn json(&self) -> Value {
         json!({"title": cp437(&self.title), "title_bytes": self.title, "author": cp437(&self.author), "group": cp437(&self.group), "comments": self.comments.len(),
                "first_comment": self.comments.first().map(|c| cp437(c)), "ice": self.ice, "letter_spacing": self.spacing, "aspect_ratio": self.aspect,
-               "font": self.font.map(|f| SAUCE_FONT_NAMES[f]), "width": self.width})
+               "font": self.font.map(|f| SAUCE_FONT_NAMES[f]), "width": self.width, "record_disagrees_with_buffer_about_ice": self.stale_record})
     }
 }
 
@@ -150,7 +152,7 @@ fn build_doc(ext: &str, m: &Meta) -> Buffer {
     for c in &m.comments {
         d.comments.push(SauceString::from(cp437(c)));
     }
-    d.use_ice = doc_ice(ext, m);
+    d.use_ice = doc_ice(ext, m) != m.stale_record;
     d.use_letter_spacing = m.spacing;
     d.use_aspect_ratio = m.aspect;
     d.buffer_size = b.get_size();
@@ -392,7 +394,11 @@ fn build(_prop: &str, tier: &str) -> Sauce {
                 m.spacing = flags & 2 != 0;
                 m.aspect = flags & 4 != 0;
                 m.font = font;
-                jobs.push(Job::Meta(fi, format!("flags {flags:03b} font {font:?}"), m));
+                jobs.push(Job::Meta(fi, format!("flags {flags:03b} font {font:?}"), m.clone()));
+                if font.is_none() {
+                    m.stale_record = true;
+                    jobs.push(Job::Meta(fi, format!("flags {flags:03b} with an attached record that says the opposite about ice colours"), m));
+                }
             }
         }
         // --- widths
